@@ -215,8 +215,8 @@ func genHist(r *hlib.Rand) input {
 			s.Source = hlib.Pick(r, []string{"10.0.0.1", "h"})
 		}
 		nt := r.Intn(4)
-		if r.Chance(1, 12) {
-			nt = r.Range(9, 13) // more than CloudWatch's 10 dimensions
+		if r.Chance(1, 6) {
+			nt = hlib.Pick(r, []int{9, 10, 11, 15, 9, 10, 11}) // around and above CloudWatch's 10 dimensions (a histogram timer adds `le`)
 		}
 		for j := 0; j < nt; j++ {
 			s.Tags = append(s.Tags, hlib.Pick(r, plainTags))
@@ -329,6 +329,13 @@ type infra struct {
 
 func newInfra() *infra {
 	x := &infra{}
+	// cloudwatch.NewClient loads the default AWS configuration: no custom CA bundle, no metadata
+	// service, a region and static dummy credentials (nothing is ever sent: the API is a fake)
+	os.Setenv("AWS_CA_BUNDLE", "")
+	os.Setenv("AWS_EC2_METADATA_DISABLED", "true")
+	os.Setenv("AWS_REGION", "us-east-1")
+	os.Setenv("AWS_ACCESS_KEY_ID", "verif")
+	os.Setenv("AWS_SECRET_ACCESS_KEY", "verif")
 	x.logger = logrus.New()
 	x.logger.SetOutput(io.Discard)
 	logrus.SetOutput(io.Discard) // the stdout backend writes through the standard logger
@@ -448,7 +455,18 @@ func (x *infra) build(in input) (*backendSet, error) {
 		bs.names = append(bs.names, c.name)
 		bs.backends = append(bs.backends, b)
 	}
-	cw := cloudwatch.VerifNewClientC04("StatsD", mk, x.logger, func(n int) error {
+	// the REAL constructor (NewClientFromViper -> NewClient builds an AWS configuration: possible in a
+	// sandbox with AWS_CA_BUNDLE="" and dummy region / credentials, see newInfra); only the API client
+	// is then replaced by a fake through the hook VerifSetAPIC04
+	cwb, err := cloudwatch.NewClientFromViper(v, x.logger, x.pool)
+	if err != nil {
+		return nil, fmt.Errorf("cloudwatch: %v", err)
+	}
+	cw, ok := cwb.(*cloudwatch.Client)
+	if !ok {
+		return nil, fmt.Errorf("cloudwatch: NewClientFromViper returned %T", cwb)
+	}
+	cloudwatch.VerifSetAPIC04(cw, func(n int) error {
 		bs.cwMu.Lock()
 		bs.cwSizes = append(bs.cwSizes, n)
 		bs.cwMu.Unlock()
